@@ -2,7 +2,7 @@
    written by the WAL writer model (Create, Save, SaveSnapshot, cut) reads back through
    Open+ReadAll exactly: the metadata, the last non-empty hard state and the entry log that the
    saves define (each entry truncates the log at its index and is appended). *)
-Require Import Base.Bytes Wal.Crc32c Wal.CrcTab Wal.Pb Wal.WalModel.
+Require Import Base.Bytes Wal.Crc32c Wal.CrcTab Wal.Pb Wal.WalModel Wal.WalSpec.
 Require Import Wal.FrameProofs Wal.CrcProofs Wal.PbProofs Wal.WalProofs Wal.TornProofs Wal.RepairProofs Wal.ReadAllProofs.
 Require Import Lia ZifyN ZifyNat ZifyBool.
 Local Open Scope N_scope.
@@ -325,42 +325,6 @@ Proof.
   pose proof (frames_len_aligned rsT) as Hal. rewrite <- Hfr in Hal.
   clear - Hal Hseg. lia.
 Qed.
-
-(* ------------------------------------------------------------------ what the saves mean *)
-
-(* ReadAll's rule for an entry read after the start snapshot (index 0 here): the log is cut at
-   the entry's index and the entry appended; ErrSliceOutOfRange if that leaves a gap *)
-Definition log_put (log : list entry) (e : entry) : option (list entry) :=
-  if 0 <? e_index e then
-    let up := e_index e - 0 - 1 in
-    if N.of_nat (length log) <? up then None else Some (firstn (N.to_nat up) log ++ [e])
-  else Some log.
-
-Fixpoint log_puts (log : list entry) (ents : list entry) : option (list entry) :=
-  match ents with
-  | [] => Some log
-  | e :: r => match log_put log e with Some l => log_puts l r | None => None end
-  end.
-
-Definition spec_op (st : list entry * hardstate) (o : wop) : option (list entry * hardstate) :=
-  let '(log, hs) := st in
-  match o with
-  | OpSave h ents =>
-    match log_puts log ents with
-    | Some l => Some (l, if hs_empty h then hs else h)
-    | None => None
-    end
-  | OpSnap _ => Some st
-  | OpCut => Some st
-  end.
-
-Fixpoint spec_ops (st : list entry * hardstate) (ops : list wop) : option (list entry * hardstate) :=
-  match ops with
-  | [] => Some st
-  | o :: r => match spec_op st o with Some st' => spec_ops st' r | None => None end
-  end.
-
-Definition spec_run (ops : list wop) : option (list entry * hardstate) := spec_ops ([], mkhs 0 0 0) ops.
 
 (* ------------------------------------------------------------------ interpretation of the emitted records *)
 
